@@ -13,7 +13,10 @@ sch = json.load(open('/root/.vp/EVIDENCE.schema.json'))
 for c in man['checks']:
     e = json.load(open(c['evidence_file']))
     jsonschema.validate(e, sch)
-    assert e['coverage']['obligations'] == e['coverage']['discharged'] > 0, c['property_id']
+    if e['level'] == 'proof':
+        assert e['coverage']['obligations'] == e['coverage']['discharged'] > 0, c['property_id']
+    else:
+        assert e['coverage']['evaluations'] > 0 and e['coverage']['failing_cases'] == 0, c['property_id']
     assert e['violations'] == 0, c['property_id']
 print('manifest + evidence valid for', len(man['checks']), 'checks')
 PY
